@@ -546,3 +546,16 @@ Section XmlProof.
       change (chain_of [rootf]) with (@nil name). rewrite spec_kids_xtree. reflexivity.
   Qed.
 End XmlProof.
+
+Theorem xml_stream_eq_select_proof :
+  forall (pm : list name -> bool) (pred : tree -> bool) (has_filter : bool),
+    (has_filter = false -> forall t, pred t = true) ->
+    pm [] = false ->
+    forall content rel,
+      exists L, xrun pm pred has_filter false x_init rel (xdoc_events content) = (L, FEOF) /\
+                map fst L = whole_doc_selection pm pred (xdoc_tree content).
+Proof.
+  intros pm pred hf Hnf Hroot content rel.
+  destruct (xml_stream_spec pm pred hf Hnf Hroot content rel) as (L & H1 & H2).
+  exists L. split; [exact H1|]. rewrite whole_doc_selection_is_spec. exact H2.
+Qed.
